@@ -1,39 +1,43 @@
-"""C03 (shared state between fits): two zero-Cp species fitted one after the other with Shomate.from_model /
-from_data; each must reproduce ITS OWN reference enthalpy and entropy at T_ref.  Exit 1 / prints WRONG otherwise."""
+"""C03 (T_mid=None, the break temperature is screened by from_data): the fitted NASA-7 species must track a smooth
+statistical-mechanical source within the small error of the two-range polynomial form.  The yardstick is computed
+with the same code: the mean squared Cp/R error on the data grid of the best single candidate T[k], 5 <= k < n-5
+(fitted with T_mid given as a scalar).  Exit 1 / prints WRONG if the screened fit is more than 3x worse (rms)."""
 import sys
 import warnings
 import numpy as np
+from ase.build import molecule
 from pmutt.statmech import StatMech, presets
-from pmutt.empirical.shomate import Shomate
+from pmutt.empirical.nasa import Nasa
 
 warnings.simplefilter('ignore')
+h2o = StatMech(name='H2O', atoms=molecule('H2O'), symmetrynumber=2, spin=0, potentialenergy=-14.22,
+               vib_wavenumbers=[3825.434, 3710.264, 1582.432], **presets['idealgas'])
+co_ads = StatMech(name='CO*', potentialenergy=-2.1, vib_wavenumbers=[2050., 420., 380., 370., 90., 85.],
+                  **presets['harmonic'])
+ch3_ads = StatMech(name='CH3*', potentialenergy=-1.0,
+                   vib_wavenumbers=[3050., 3040., 2950., 1400., 1390., 1200., 650., 640., 400., 120., 110., 60.],
+                   **presets['harmonic'])
+
+
+def rms(fit, model, T):
+    return np.sqrt(np.mean([(fit.get_CpoR(T=T_i) - model.get_CpoR(T=T_i))**2 for T_i in T]))
+
+
 bad = False
-
-# (a) from_model: two electronic-only (zero heat capacity) species, e.g. two surface sites / lattice references
-m1 = StatMech(name='A', potentialenergy=-1.5, spin=0, **presets['electronic'])
-m2 = StatMech(name='B', potentialenergy=-3.0, spin=1, **presets['electronic'])
-T_low, T_high = 300., 1200.
-T_ref = (T_low + T_high) / 2.
-s1 = Shomate.from_model(model=m1, name='A', T_low=T_low, T_high=T_high, n_T=40)
-h1_before, S1_before = s1.get_HoRT(T=T_ref), s1.get_SoR(T=T_ref)
-s2 = Shomate.from_model(model=m2, name='B', T_low=T_low, T_high=T_high, n_T=40)
-for sp, m in ((s1, m1), (s2, m2)):
-    dH = abs(sp.get_HoRT(T=T_ref) - m.get_HoRT(T=T_ref))
-    dS = abs(sp.get_SoR(T=T_ref) - m.get_SoR(T=T_ref))
-    print('from_model %s: H/RT(T_ref) fit %.6f source %.6f | S/R(T_ref) fit %.6f source %.6f'
-          % (sp.name, sp.get_HoRT(T=T_ref), m.get_HoRT(T=T_ref), sp.get_SoR(T=T_ref), m.get_SoR(T=T_ref)))
-    if dH > 1e-8 or dS > 1e-8:
+for label, model, T_low, T_high, n_T in (('H2O gas', h2o, 100., 3000., 50), ('H2O gas', h2o, 200., 3000., 200),
+                                         ('CO* ads', co_ads, 100., 1500., 50), ('CO* ads', co_ads, 100., 3000., 100),
+                                         ('CH3* ads', ch3_ads, 100., 2000., 40)):
+    T = np.linspace(T_low, T_high, n_T)
+    fit = Nasa.from_model(model=model, name='sp', T_low=T_low, T_high=T_high, n_T=n_T)
+    err = rms(fit, model, T)
+    best, best_T = min((rms(Nasa.from_model(model=model, name='sp', T_low=T_low, T_high=T_high, n_T=n_T,
+                                            T_mid=float(T_m)), model, T), T_m) for T_m in T[5:-5])
+    Ts = np.linspace(T_low, T_high, 400)
+    worst = max(abs(fit.get_CpoR(T=T_i) - model.get_CpoR(T=T_i)) for T_i in Ts)
+    print('%-8s %5.0f-%5.0f K n_T=%3d: screened T_mid=%7.1f rms dCp/R=%.2e (max %.2e) | best candidate %7.1f rms %.2e'
+          ' | ratio %.1f' % (label, T_low, T_high, n_T, fit.T_mid, err, worst, best_T, best, err / best))
+    if err > 3. * best:
         bad = True
-print('species A right after its own fit: H/RT(T_ref) = %.6f, S/R(T_ref) = %.6f' % (h1_before, S1_before))
-
-# (b) from_data, every fitting unit
-T = np.linspace(200., 900., 15)
-for units in ('J/mol/K', 'cal/mol/K', 'eV/K'):
-    a = Shomate.from_data(name='a', T=T, CpoR=np.zeros(15), T_ref=500., HoRT_ref=-10., SoR_ref=2.5, units=units)
-    b = Shomate.from_data(name='b', T=T, CpoR=np.zeros(15), T_ref=350., HoRT_ref=-50., SoR_ref=7.5, units=units)
-    ha, sa = a.get_HoRT(T=500.), a.get_SoR(T=500.)
-    print('from_data %-9s first species: H/RT(500 K) = %.6f (given -10), S/R(500 K) = %.6f (given 2.5)' % (units, ha, sa))
-    if abs(ha + 10.) > 1e-8 or abs(sa - 2.5) > 1e-8:
-        bad = True
-print('WRONG: a fitted species lost its reference enthalpy/entropy when another species was fitted' if bad else 'OK')
+print('WRONG: the break temperature screened by from_data is far from the candidate that fits best; the species '
+      'tracks Cp/R several times worse than the polynomial form allows' if bad else 'OK')
 sys.exit(1 if bad else 0)
